@@ -80,12 +80,23 @@ def records():
          ('j', T('INTEGER', [('E', CTX, 1)]), 'opt'), ('s', T('UTF8String'), ('default', 'dflt'))],
         [('x', T('OCTETSTRING', [('E', CTX, 5)]), 'req'), ('y', T('BITSTRING', [('I', APP, 3)]), 'req')],
         [('o', T('OID'), ('default', (1, 3, 6))), ('r', T('REAL'), 'opt'), ('e', T('ENUMERATED'), 'req')],
+        # DEFAULT members only, no OPTIONAL one (the decoder's "no member can be left out" fast path must not be taken)
+        [('v', T('INTEGER'), ('default', 1)), ('w', T('OCTETSTRING'), 'req')],
+        [('v', T('INTEGER'), ('default', 1)), ('c', T('BOOLEAN'), ('default', False)), ('w', T('OCTETSTRING'), 'req'),
+         ('u', T('UTF8String'), ('default', 'dflt'))],
     ]
+    # more than ten members: positions with two digits (names generated for a schemaless record sort differently as text)
+    kinds12 = ['INTEGER', 'OCTETSTRING', 'BOOLEAN', 'INTEGER', 'NULL', 'UTF8String', 'INTEGER', 'OCTETSTRING', 'BOOLEAN', 'INTEGER',
+               'OCTETSTRING', 'INTEGER', 'BOOLEAN']
+    shapes.append([('m%02d' % i, T(k), 'req') for i, k in enumerate(kinds12)])
     vals = {
         'a': [5, -129], 'b': [b'', b'quick'], 'c': [True, False], 'n': [None], 'i': [7], 'j': [128],
         's': ['dflt', 'other'], 'x': [b'zz'], 'y': ['101'], 'o': [(1, 3, 6), (2, 5, 4)], 'r': [(3, 2, 10), 'inf'],
-        'e': [1],
+        'e': [1], 'v': [1, 2], 'w': [b'w'], 'u': ['dflt', 'u'],
     }
+    for i, k in enumerate(kinds12):
+        vals['m%02d' % i] = [{'INTEGER': 100 + i, 'OCTETSTRING': bytes([65 + i]), 'BOOLEAN': bool(i % 2), 'NULL': None,
+                              'UTF8String': 'm%d' % i}[k]]
     for kind in ('SEQUENCE', 'SET'):
         for fields in shapes:
             for ts in ([], [('E', CTX, 3)], [('I', APP, 9)]):
